@@ -94,7 +94,7 @@ OTHER_OPS = [
     "pair_key_no_dash", "pair_key_three_species", "pair_key_empty_species", "missing_pair_section",
     "fs_key_without_arrow", "fs_key_two_arrows", "fs_key_empty_species", "species_key_empty_label",
     "formula_signature_trailing_text", "number_with_underscore", "placeholder_unresolvable_in_unread_entry",
-    "grid_other_script_digits", "species_malformed_in_pair_model", "formula_unused_unparsable", "formula_label_is_language_function",
+    "grid_other_script_digits", "grid_blank_value", "species_malformed_in_pair_model", "formula_unused_unparsable", "formula_label_is_language_function",
     "table_named_like_pymath_function", "missing_embed_section", "missing_density_section",
     "species_without_data", "species_data_removed", "species_key_without_dot", "species_mass_not_number", "species_number_not_integer",
     "custom_wrong_arity", "table_form_with_params", "formula_bad_signature", "formula_signature_no_paren",
@@ -264,6 +264,12 @@ def mutate(case):
         settab(["nr", "cutoff", "dr"][site % 3], ["0", "0.0"][site % 2] if site % 3 else "0")
     elif op == "grid_nr_not_integer":
         settab("nr", "10.5")
+    elif op == "grid_blank_value":
+        # an option that is present with an empty value is not an absent option: there is nothing to convert
+        key = ["nr", "cutoff", "target", "nr", "cutoff"][site % 5]
+        if key in ("nr", "cutoff"):
+            deltab("dr")
+        settab(key, "")
     elif op == "grid_other_script_digits":
         # int() and float() read the digits of any script: '\u0661\u0662' is 12 to them, not to the input format
         deltab("dr")
